@@ -171,10 +171,20 @@ pub fn pd_moves(rng: &mut Rng, pd0: &PD, k: usize, allow_r1: bool, max_crossings
     let mut log = vec![];
     let mut has_r = false;
     for _ in 0..k {
-        match rng.below(if allow_r1 { 6 } else { 3 }) {
+        match rng.below(if allow_r1 { 8 } else { 3 }) {
             0 => { pd = random_relabel(rng, &pd); log.push("relabel edges".into()) }
             1 => { let p = rng.perm(pd.n()); pd = pd.permute_crossings(&p); log.push(format!("permute crossings {:?}", p)) }
             2 => { pd = pd.reverse_all(); log.push("reverse all orientations".into()) }
+            6 | 7 => {
+                // Reidemeister II across a common face (search-based, oracle-validated)
+                if pd.n() + 2 <= max_crossings && pd.n() > 0 && pd.n() <= 10 {
+                    let es = pd.edges();
+                    for _ in 0..6 {
+                        let (e, f) = (*rng.choose(&es), *rng.choose(&es));
+                        if let Some(p) = pd.r2_search(e, f, rng.below(4)) { pd = p; has_r = true; log.push(format!("R2: strand of edge {e} pushed across edge {f}")); break }
+                    }
+                }
+            }
             _ => {
                 if pd.n() < max_crossings && pd.n() > 0 {
                     let es = pd.edges();
